@@ -7,7 +7,7 @@ if [[ "$P" == revert:* ]]; then
   C="${P#revert:}"
   git diff "$C"^ "$C" | git apply -R || { echo "cannot revert $C"; exit 2; }
 else
-  git apply "$P" || { echo "cannot apply $P"; exit 2; }
+  git apply "$(cd /verif && realpath "$P")" || { echo "cannot apply $P"; exit 2; }
 fi
 for prop in "$@"; do
   echo "=== $prop on $(basename $(dirname "$P")) $P"
